@@ -65,6 +65,9 @@ fn c02_pair_drop(seed: u64) -> Scenario {
 fn ps_exact(seed: u64) -> Scenario {
     g::peer_sender(seed, "peer_sender_exact", true)
 }
+fn ps_exact_refusals(seed: u64) -> Scenario {
+    g::peer_sender(seed, "peer_sender_exact_refusals", true)
+}
 fn ps_hostile(seed: u64) -> Scenario {
     g::peer_sender(seed, "peer_sender_hostile", false)
 }
@@ -112,7 +115,7 @@ pub fn families(property: &str) -> Vec<Family> {
         ],
         "C18" => vec![Family { fault_free: true, ..fam("peer_receiver_nagle", pr_nagle, 40_000, 1_000_000) }, Family { fault_free: true, ..fam("peer_receiver", pr_generic, 10_000, 300_000) }],
         "C19" => vec![Family { fault_free: true, ..fam("peer_receiver_buffer", pr_buffer, 25_000, 600_000) }, Family { fault_free: true, ..fam("peer_receiver", pr_generic, 10_000, 300_000) }],
-        "C07" => vec![Family { fault_free: true, ..fam("peer_sender_exact", ps_exact, 40_000, 1_000_000) }],
+        "C07" => vec![Family { fault_free: true, ..fam("peer_sender_exact", ps_exact, 34_000, 850_000) }, fam("peer_sender_exact_refusals", ps_exact_refusals, 6_000, 150_000)],
         "C08" => vec![fam("c08_cycles", g::c08_cycles, 8_000, 200_000), fam("c13_pairing", g::c13_pairing, 4_000, 100_000)],
         "C09" => vec![fam("c09_isn", g::c09_isn, 25_000, 600_000), Family { fault_free: true, ..fam("c09_wide", g::c09_wide, 150, 5_000) }],
         "C10" => vec![Family { fault_free: true, ..fam("c10_hostile", g::c10_hostile, 20_000, 500_000) }],
